@@ -137,12 +137,117 @@ def seq_resume(F):
     return out
 
 
+def update_logged_is_applied(F):
+    """update_metadata: the metadata written to the WAL entry and the metadata stored in the document store are clones of the
+    same value (`updated_metadata`, the result of the merge/replace decision), and replay *replaces* the stored metadata
+    by the logged one (no second merge).  Otherwise a restart yields metadata the live engine never held."""
+    from vlib.mirflow import _debug_name
+    out = []
+    fc = FnCheck(F, H + "update_metadata", containing=WAL_APPEND)
+    if fc.fn is None:
+        return [fc.missing()]
+    fn = fc.fn
+    logged, stored = [], []
+    for b in fn.blocks.values():
+        if b.cleanup:
+            continue
+        for s_ in b.stmts:
+            m = re.search(r"WalEntry \{.*metadata: move (_\d+),", s_)
+            if m:
+                logged.append((b.idx, m.group(1)))
+            m = re.match(r"^\(\*(_\d+)\) = move (_\d+);$", s_)
+            if m and re.search(r"HashMap<(std::string::)?String, (std::string::)?String>$", fn.locals.get(m.group(2), "")):
+                stored.append((b.idx, m.group(2)))
+
+    def root(loc):
+        ds = fn.build_defs().get(loc) or []
+        for (_b, _i, rhs) in ds:
+            m = re.match(r"^CALL <.*HashMap<.*> as Clone>::clone\((?:move |copy )?(_\d+)\)$", rhs)
+            if m:
+                return _debug_name(fn, m.group(1)) or _o(fn, m.group(1))[:60]
+        return _debug_name(fn, loc) or _o(fn, loc)[:60]
+    r = fc.reachable(WAL_APPEND)
+    if len(logged) != 1 or len(stored) != 1:
+        return [Result("inconclusive", "expected one WalEntry construction and one metadata store in update_metadata, found %d / %d" % (len(logged), len(stored)))]
+    rl, rs = root(logged[0][1]), root(stored[0][1])
+    smp = {"fn": fc.name, "kind": "PROVENANCE", "logged": rl, "stored": rs}
+    if rl and rl == rs:
+        out.append(Result("holds", "WAL entry and document store both receive clones of `%s`" % rl, queries=r.queries, seconds=r.seconds, sample=smp))
+    else:
+        out.append(Result("violated", "update_metadata logs `%s` but stores `%s`: after a restart the document carries metadata the live engine never held" % (rl, rs), queries=r.queries, seconds=r.seconds, sample=smp))
+    # replay: UpdateMetadata arm assigns the logged metadata, no merge
+    rc = FnCheck(F, REC)
+    if rc.fn is not None:
+        UPD = Arm(r"^discr\(.*: persistence::WalOp\)\)$", {"3"}, name="entry.op == UpdateMetadata")
+        EXT = call(r"= <HashMap<String, String> as Extend<\(String, String\)>>::extend", name="metadata.extend (merge)")
+        if rc.count(EXT) > 0:
+            out.append(rc.never(EXT, frm=UPD))
+        else:
+            out.append(Result("holds", "replay never merges metadata (no HashMap::extend in recover)", sample={"fn": rc.name, "kind": "NEVER", "B": EXT.name}))
+    return out
+
+
+def snapshot_seq(F):
+    """create_snapshot: the sequence number recorded in the snapshot (and in the MANIFEST) is next_wal_seq - 1, read while the
+    snapshot lock is held exclusively: every entry with a smaller or equal sequence number is in the store the snapshot
+    copies, none with a larger one is."""
+    SNAP_NEW = call(r"= Snapshot::new\(", name="Snapshot::new")
+    fc = FnCheck(F, H + "create_snapshot", containing=SNAP_NEW)
+    if fc.fn is None:
+        return [fc.missing()]
+    fn = fc.fn
+    out = []
+    r = fc.reachable(SNAP_NEW)
+    subs = [b for b in fn.blocks.values() if not b.cleanup and b.kind == "call" and re.search(r"impl u64>::saturating_sub$", MF_short(b.callee))]
+    news = [b for b in fn.blocks.values() if not b.cleanup and SNAP_NEW.match_block(fn, b)]
+    ok = False
+    got = "?"
+    for nb in news:
+        a = _M._split_top(nb.args)
+        got = _o(fn, a[4]) if len(a) > 4 else "?"
+        if got == "call core::num::<impl u64>::saturating_sub":
+            for sb in subs:
+                x = [_o(fn, y) for y in _M._split_top(sb.args)[:2]]
+                if x[0] == "call Atomic::<u64>::load" and x[1] == "const 1_u64":
+                    ok = True
+    smp = {"fn": fc.name, "kind": "PROVENANCE", "call": "Snapshot::new", "last_wal_seq": got[:100]}
+    out.append(Result("holds" if ok else "violated", "snapshot.last_wal_seq = next_wal_seq.load().saturating_sub(1)" if ok else
+                      "the snapshot records `%s` as last_wal_seq, expected next_wal_seq - 1: replay would skip an entry the snapshot does not contain (or re-apply older ones)" % got[:120],
+                      queries=r.queries, seconds=r.seconds, sample=smp))
+    # the load happens under the exclusive snapshot lock, and before the store is copied
+    LOCKW = call(r"= RwLock::<\(\)>::write\(", name="snapshot_lock.write()")
+    LOAD = call(r"= Atomic::<u64>::load\(", name="next_wal_seq.load()")
+    out.append(fc.held(LOCKW, LOAD))
+    out.append(fc.held(LOCKW, DOCSTORE_READ))
+    out.append(fc.precedes(LOAD, DOCSTORE_READ))
+    # the MANIFEST records the same number
+    for b in fn.blocks.values():
+        if b.cleanup:
+            continue
+        for s_ in b.stmts:
+            m = re.match(r"^\((_\d+)\.\d+: (?:std::option::)?Option<u64>\) = move (_\d+);$", s_)
+            if m:
+                src = _o(fn, m.group(2))
+                mm = re.match(r"^Option::<u64>::Some\((?:copy|move) (_\d+)\)$", src)
+                if mm:
+                    src = _o(fn, mm.group(1))
+                good = "saturating_sub" in src
+                out.append(Result("holds" if good else "violated", "manifest.latest_snapshot_wal_seq <- Some(last_wal_seq)" if good else
+                                  "the MANIFEST records `%s` as latest_snapshot_wal_seq, expected the snapshot's last_wal_seq" % src[:120],
+                                  sample={"fn": fc.name, "kind": "PROVENANCE", "site": "bb%d" % b.idx, "value": src[:120]}))
+    return out
+
+
 def MF_short(t):
     from vlib.mirflow import short_ty
     return re.sub(r"::<[^>]*>$", "", short_ty(t or ""))
 
 
 MOS = [
+    MO("O2.4/snapshot_seq", "create_snapshot: last_wal_seq = next_wal_seq - 1, read under the exclusive snapshot lock before the store is copied, and the same number goes into the MANIFEST",
+       snapshot_seq, functions=[("hnsw_backend.rs", "create_snapshot")]),
+    MO("O2.6/update_logged_is_applied", "update_metadata: the WAL entry and the document store receive clones of the same final metadata; replay replaces (never merges) on UpdateMetadata",
+       update_logged_is_applied, functions=[("hnsw_backend.rs", "update_metadata"), ("hnsw_backend.rs", "recover_with_hnsw_params_and_mode")]),
     MO("O2.1/replay_skip", "recover: every WAL entry with seq_no > snapshot seq (or, legacy, newer than the snapshot timestamp) is applied, and no entry strictly older than the snapshot is re-applied — proved for all values (DECIDES)",
        replay_skip, functions=[("hnsw_backend.rs", "recover_with_hnsw_params_and_mode")]),
     MO("O2.2/compaction_entry", "compact_old_wal_segments: every entry that replay would apply (not covered by the snapshot) lowers all_entries_covered — proved for all values; keeping more than necessary is allowed",
